@@ -2,6 +2,7 @@
 //! the op lines (replayed by the Lean driver) together with the implementation's answers.
 mod c_alu;
 mod c_bus;
+mod c_flow;
 mod c_mach;
 mod gen;
 mod out;
@@ -24,6 +25,8 @@ fn main() {
     let extra: Vec<String> = args[5..].to_vec();
     match cmd {
         "c08" => c_alu::run(&mut out, seed, thorough),
+        "c09" => c_flow::run(&mut out, seed, thorough),
+        "c09drill" => c_flow::drill(&mut out, &extra),
         "c10" => c_bus::run(&mut out, seed, thorough),
         "c05" => c_mach::run_c05(&mut out, seed, thorough),
         "c13" => c_mach::run_c13(&mut out, seed, thorough),
